@@ -275,6 +275,14 @@ def rule_json(ck):
         else:
             o.unknown('unrecognised default handler `%s`' % u(dflt))
     l = P.func('csep.load_evaluation_result')
+    from .common import memoising_decorators
+    for q in ('csep.load_evaluation_result', 'csep.models.EvaluationResult.from_dict', 'csep.core.regions.CartesianGrid2D.from_dict'):
+        g = P.func(q)
+        memo = memoising_decorators(P, g)
+        o = ck.ob('C18-D4.fresh', g, 'decoded from its argument at every call', g.node)
+        (o.fail('%s is decorated with `%s`: a second load of the same path returns the object decoded the first time, whatever has been '
+                'written to the file since - a result written with write_json to a path that was loaded before does not come back'
+                % (g.short, u(memo[0]))) if memo else o.ok())
     loads = calls_in(P, l, 'json.load')
     o = ck.ob('C18-D4.load', l, loads[0] if loads else 'json.load', loads[0] if loads else l.node)
     (o.ok() if len(loads) == 1 else o.fail('the result file is not read with json.load'))
@@ -330,8 +338,25 @@ def rule_region(ck):
     else:
         e = dict(dict_literal_items(pol.elt))
         v = pol.generators[0].target.id
-        if 'origin[0]' not in u(e.get('lon', ast.Constant(0))) or 'origin[1]' not in u(e.get('lat', ast.Constant(0))):
+        def core(x):
+            # float(...) of a double is the double; nothing else may stand between the stored origin and the dictionary
+            while isinstance(x, ast.Call) and (call_name(x) or '') in ('builtins.float', 'float', 'numpy.float64') and len(x.args) == 1 and not x.keywords:
+                x = x.args[0]
+            return x
+        lo, la = core(e.get('lon', ast.Constant(0))), core(e.get('lat', ast.Constant(0)))
+        if 'origin[0]' not in u(lo) or 'origin[1]' not in u(la):
             probs.append("origins are written as lon=%s lat=%s; the origin is (lon, lat) = (origin[0], origin[1])" % (u(e.get('lon')) if 'lon' in e else '?', u(e.get('lat')) if 'lat' in e else '?'))
+        elif u(lo) != '%s.origin[0]' % v or u(la) != '%s.origin[1]' % v:
+            probs.append('the origins are written as lon=`%s`, lat=`%s`, not as the stored numbers: the lattice rebuilt from altered origins has '
+                         'its edges elsewhere (rounding to 6 decimals moves them by up to 5e-7 degrees), so points on or next to a cell edge are '
+                         'assigned to another cell than by the original region' % (u(e['lon'])[:50], u(e['lat'])[:50]))
+    dhv = items.get('dh')
+    if dhv is not None:
+        x = dhv
+        while isinstance(x, ast.Call) and (call_name(x) or '') in ('builtins.float', 'float', 'numpy.float64') and len(x.args) == 1 and not x.keywords:
+            x = x.args[0]
+        if 'self.dh' in u(dhv) and u(x) != 'self.dh':
+            probs.append('dh is written as `%s`, not as the stored spacing' % u(dhv)[:50])
     (o.fail('; '.join(probs)) if probs else o.ok("{'name','dh','polygons':[{'lat':origin[1],'lon':origin[0]}...],'class_id'}"))
     f = P.func('csep.core.regions.CartesianGrid2D.from_dict')
     exf = Expander(P, f)
